@@ -222,6 +222,18 @@ class _DeMorgan(ast.NodeTransformer):
         return node
 
 
+class _IsinstSplit(ast.NodeTransformer):
+    """`isinstance(x, (A, B))` -> `isinstance(x, A) or isinstance(x, B)` (x a plain name or attribute: evaluated twice without effect)."""
+
+    def visit_Call(self, node: ast.Call) -> ast.AST:  # noqa: N802
+        self.generic_visit(node)
+        if isinstance(node.func, ast.Name) and node.func.id == "isinstance" and len(node.args) == 2 and isinstance(node.args[1], ast.Tuple) and len(node.args[1].elts) > 1 and isinstance(node.args[0], (ast.Name, ast.Attribute)):
+            import copy
+
+            return ast.BoolOp(op=ast.Or(), values=[ast.Call(func=ast.Name(id="isinstance", ctx=ast.Load()), args=[copy.deepcopy(node.args[0]), t], keywords=[]) for t in node.args[1].elts])
+        return node
+
+
 class _Passes(ast.NodeTransformer):
     """A `pass` in front of every statement of every function body (stands for an inserted no-op such as a log line)."""
 
@@ -337,7 +349,7 @@ def transform(src: str, kind: str) -> str:
         tree = _Rename().visit(tree)
     if kind in ("swapif", "all"):
         tree = _SwapIf().visit(tree)
-    for k_, cls_ in (("swapifexp", _SwapIfExp), ("yoda", _Yoda), ("kwreorder", _KwReorder), ("excorder", _ExcOrder), ("msgtext", _MsgText), ("ctorlit", _CtorLit), ("demorgan", _DeMorgan), ("passes", _Passes), ("argtemp", _ArgTemp), ("methodorder", _MethodOrder), ("addelse", _AddElse)):
+    for k_, cls_ in (("swapifexp", _SwapIfExp), ("yoda", _Yoda), ("kwreorder", _KwReorder), ("excorder", _ExcOrder), ("msgtext", _MsgText), ("ctorlit", _CtorLit), ("demorgan", _DeMorgan), ("isinstsplit", _IsinstSplit), ("passes", _Passes), ("argtemp", _ArgTemp), ("methodorder", _MethodOrder), ("addelse", _AddElse)):
         if kind == k_:
             tree = cls_().visit(tree)
     if kind == "retvar":
